@@ -88,7 +88,7 @@ pub fn setup_udp_session(
     let socket = udp_socket(local, Some(remote), transparent)?;
     let socket = Arc::new(socket);
     Ok((
-        UdpFrameReader::new(target, socket.clone(), extra_frame),
+        UdpFrameReader::new(target, remote, socket.clone(), extra_frame),
         UdpFrameWriter::new(socket),
     ))
 }
@@ -96,13 +96,20 @@ pub fn setup_udp_session(
 struct UdpFrameReader {
     socket: Arc<UdpSocket>,
     target: TargetAddress,
+    remote: SocketAddr,
     extra_frame: Receiver,
 }
 
 impl UdpFrameReader {
-    fn new(target: TargetAddress, socket: Arc<UdpSocket>, extra_frame: Receiver) -> Box<Self> {
+    fn new(
+        target: TargetAddress,
+        remote: SocketAddr,
+        socket: Arc<UdpSocket>,
+        extra_frame: Receiver,
+    ) -> Box<Self> {
         Self {
             target,
+            remote,
             socket,
             extra_frame,
         }
@@ -113,12 +120,24 @@ impl UdpFrameReader {
 #[async_trait]
 impl FrameReader for UdpFrameReader {
     async fn read(&mut self) -> IoResult<Option<Frame>> {
-        let mut buf = Frame::new();
-        tokio::select! {
-            Some(f) = self.extra_frame.recv() => Ok(Some(f)),
-            _ = buf.recv_from(&self.socket) => {
-                buf.addr = Some(self.target.clone());
-                Ok(Some(buf))
+        loop {
+            let mut buf = Frame::new();
+            tokio::select! {
+                Some(f) = self.extra_frame.recv() => return Ok(Some(f)),
+                r = buf.recv_from(&self.socket) => {
+                    // The socket shares the listener's address and was bound before it was connected to
+                    // this session's client: a datagram another client sent in between was queued here.
+                    // It belongs to that client's session, never to this one.
+                    if let Ok((_, source)) = r {
+                        let source = super::try_map_v4_addr(source);
+                        if !self.remote.ip().is_unspecified() && source != super::try_map_v4_addr(self.remote) {
+                            tracing::debug!("datagram from {} on the session socket of {}, ignored", source, self.remote);
+                            continue;
+                        }
+                    }
+                    buf.addr = Some(self.target.clone());
+                    return Ok(Some(buf));
+                }
             }
         }
     }
